@@ -59,6 +59,8 @@ def equivalences():
     add("map_vs_when/nodefault", ("a",), lambda x, c: x >> pdt.mutate(m=x.a.map({1: 10, 5: 50})), lambda x, c: x >> pdt.mutate(m=pdt.when(x.a == 1).then(10).when(x.a == 5).then(50).otherwise(x.a)))
     add("map_vs_when/str", ("s",), lambda x, c: x >> pdt.mutate(m=x.s.map({"x": "X", "y": "Y"}, default=x.s)), lambda x, c: x >> pdt.mutate(m=pdt.when(x.s == "x").then("X").when(x.s == "y").then("Y").otherwise(x.s)))
     add("is_in_vs_or", ("a", "h"), lambda x, c: x >> pdt.mutate(m=x.a.is_in(1, 2, x.h)), lambda x, c: x >> pdt.mutate(m=(x.a == 1) | (x.a == 2) | (x.a == x.h)))
+    add("is_in_vs_or/null_candidates", ("a", "h"), lambda x, c: x >> pdt.mutate(m=x.h.is_in(x.a, 7), k=x.a.is_in(1, None), nk=~x.h.is_in(x.a, 2)), lambda x, c: x >> pdt.mutate(m=(x.h == x.a) | (x.h == 7), k=(x.a == 1) | (x.a == pdt.lit(None)), nk=~((x.h == x.a) | (x.h == 2))))
+    add("is_in_vs_or/filter_negated", ("a", "h"), lambda x, c: x >> pdt.filter(~x.h.is_in(x.a, 2)), lambda x, c: x >> pdt.filter(~((x.h == x.a) | (x.h == 2))))
     add("is_in_vs_or/filter", ("a",), lambda x, c: x >> pdt.filter(x.a.is_in(2, 5)), lambda x, c: x >> pdt.filter((x.a == 2) | (x.a == 5)))
     add("is_in_vs_or/str", ("s",), lambda x, c: x >> pdt.mutate(m=x.s.is_in("x", "w")), lambda x, c: x >> pdt.mutate(m=(x.s == "x") | (x.s == "w")))
 
